@@ -39,18 +39,21 @@ PROPS = {
                 rule="L2 (Interpreter::parse on a fully specified machine): random lines of the MOV/XCHG/LEA and ALU families over all operand shapes "
                      "(direct, indirect, based, indexed, based-indexed, +-displacement, segment override, data label) x adversarial registers/segments "
                      "(lattice values, segments straddling 2^20); memory is a position-dependent pattern, so a read identifies the address used and the "
-                     "full-memory diff shows every write; non-trivial = state or outcome differs from a plain NEXT; distinct = distinct request text"),
+                     "full-memory diff shows every write; non-trivial = state or outcome differs from a plain NEXT; distinct = distinct request text"
+                     " L3 operands: every memory-operand shape x override x base x index x 20 instruction frames written from syntax.md, the emitted line must mean the source instruction (request opnd). L4 dataref: label reads against an image computed by the generator."),
     "C05": dict(modules=["Emu8086.Props.C05"], runs=[("l2", "mov+xfer+stack"), ("l2", "stackseq")], gen=["Arch", "ILiterals"],
                 rule="L2: MOV/XCHG/PUSH/POP/PUSHF/POPF/LAHF/SAHF/XLAT over all operand kinds x adversarial SS:SP (0, 1, FFFFh, top of memory); "
                      "stackseq = straight-line random interleavings of pushes/pops/moves (length up to 64 quick / 2000 thorough) executed line by line "
                      "against the model and the reference; non-trivial = more than one instruction or a state change"),
     "C06": dict(modules=["Emu8086.Props.C06"], runs=[("l2", "jumpx"), ("l2", "jump"), ("l3", "jumpspell")], gen=["Arch", "ILiterals", "Jumps"],
                 rule="L2 jumpx: EVERY jump mnemonic of the interpreter x all 32 settings of CF/PF/ZF/SF/OF x 4 settings of the other flag bits "
-                     "(x CX lattice + random for JCXZ/LOOP*); jump: random jumps/calls/rets/ints; non-trivial = outcome other than plain NEXT or CX changed"),
+                     "(x CX lattice + random for JCXZ/LOOP*); jump: random jumps/calls/rets/ints; non-trivial = outcome other than plain NEXT or CX changed"
+                     " L3 jumpspell: every Intel jump/loop mnemonic in both cases through the real assembler, emitted jump must belong to its Intel class (request jsp)."),
     "C07": dict(modules=["Emu8086.Props.C07"], runs=[("l2", "string"), ("l2", "rep"), ("l4", "strings")], gen=["Arch", "ILiterals"],
                 rule="L2 string: single steps of every string instruction x width x DF x prefix on adversarial DS/ES/SI/DI; rep: the REPEAT protocol "
                      "driven to completion (the driver's loop) for every mnemonic x width x DF x prefix x CX in 0..64 (+255, 300; thorough also 4095, 32768, 65535), "
-                     "with aliasing DS:SI/ES:DI and runs of equal bytes; non-trivial = CX != 0 or a state change"),
+                     "with aliasing DS:SI/ES:DI and runs of equal bytes; non-trivial = CX != 0 or a state change"
+                     " L4 strings: whole programs with every string mnemonic x width x DF x prefix run by the real binary's own REPEAT handling (plain and -i), over data that stops conditional repeats early, late or never."),
     "C09": dict(modules=["Emu8086.Props.C09", "Emu8086.Props.ExecAll"], runs=[("l2", "all"), ("l2", "malformed"), ("l2", "divx")], gen=["Arch", "ILiterals"],
                 rule="L2: every instruction class x adversarial machine states (registers from {0,1,7FFFh,8000h,FFFEh,FFFFh,random}, segments straddling 2^20, "
                      "counts 0..255, divisors 0/1/-1) with catch_unwind in an overflow-checking build: a PANIC of the real code is a violation; malformed = "
@@ -59,54 +62,66 @@ PROPS = {
                 rule="L4 run: structured terminating programs (procedures first, labels at every position incl. last / before procedures / macro uses / prints, "
                      "forward jumps, bounded LOOPs, calls of calls, start in the middle, code after hlt) executed by the REAL binary; the executed-instruction "
                      "trace, final registers and memory (verification hook) and stdout must equal the model's run loop; L3 progs: random whole programs through "
-                     "the real assembler (label/procedure indices, source map); non-trivial = more than one instruction executed / program accepted"),
+                     "the real assembler (label/procedure indices, source map); non-trivial = more than one instruction executed / program accepted"
+                     " L3 jumpspell + roles: grammar-independent oracles for the spelling tables and emission templates of the control-flow instructions."),
     "C10": dict(modules=["Emu8086.Props.C10"], runs=[("l3", "shapes"), ("l3", "progs"), ("l4", "shapes"), ("l4", "diag"), ("l3", "jumpspell"), ("l3", "roles")], gen=["Arch", "ILiterals", "PPGrammar"],
                 rule="shapes: EVERY code-emitting alternative of the CURRENT assembler grammar x every spelling of its mnemonic table x sampled operands "
                      "(generated from the grammar on each run); L3 = real Preprocessor vs model (byte-identical lines); L4 = the same programs executed by the real "
-                     "binary: the real DataParser / Interpreter / PrintParser judge every emitted line (any 'Internal Error' is a violation); non-trivial = accepted program"),
+                     "binary: the real DataParser / Interpreter / PrintParser judge every emitted line (any 'Internal Error' is a violation); non-trivial = accepted program"
+                     " L4 diag: context mismatches (jump to a procedure name, call of a label, array fill values out of range ...) with verdict expectations; L3 jumpspell + roles."),
     "C11": dict(modules=["Emu8086.Props.C11", "Emu8086.Props.C16Map"], runs=[("l3", "spell"), ("l3", "shapes"), ("l3", "operands"), ("l3", "roles")], gen=["Arch", "ILiterals", "PPGrammar"],
                 rule="spell: programs rendered from the grammar under two independent spelling choices (case of every keyword/register/mnemonic incl. synonyms, "
                      "radix / leading zeros / negative decimal with the same bit pattern / OFFSET of a label with that offset for every constant, amount and kind of "
                      "white space and line breaks): the real assembler must emit identical code and data lists for both (or refuse both with the same diagnostic) and "
-                     "agree with the model; non-trivial = the two renderings differ textually"),
+                     "agree with the model; non-trivial = the two renderings differ textually"
+                     " L3 operands + roles: for every code-emitting alternative x every spelling of every table it uses, the emitted line read by the interpreter model must be the source instruction with the same operands in the same roles."),
     "C12": dict(modules=["Emu8086.Props.C12", "Emu8086.Props.C12Text"], runs=[("l3", "data"), ("l4", "data"), ("l4", "dataref"), ("l2", "mov+xfer")], gen=["Arch", "ILiterals", "PPGrammar"],
                 rule="random SET/DB/DW sequences of all four kinds (values over the full signed/unsigned ranges, arrays 0..65535 elements incl. segment overflow, "
                      "strings with every printable character, segments up to FFFFh so that data crosses the 1 MB wrap); L3: emitted data lines, label offsets, OFFSET "
-                     "values vs model; L4: the WHOLE memory image after loading (all non-zero bytes, via the verification hook) and `print mem` output vs the model's loader"),
+                     "values vs model; L4: the WHOLE memory image after loading (all non-zero bytes, via the verification hook) and `print mem` output vs the model's loader"
+                     " L4 dataref: SET/DB/DW of all kinds incl. two-argument arrays and negative values; the dump of every segment touched, the offset of every label and the word read through every label operand must equal an image computed by the generator from the definitions. L2: label operands under arbitrary DS."),
     "C13": dict(modules=["Emu8086.Props.C13", "Emu8086.Props.C13Subst"], runs=[("l4", "macros"), ("l4", "fuzz"), ("l3", "macros", {"VERIF_ISOLATE": "1"}), ("l3", "macroref", {"VERIF_ISOLATE": "1"}), ("l3", "progs")], gen=["Arch", "ILiterals", "PPGrammar"],
                 rule="random macro libraries (1-5 macros, 0-3 parameters whose names are prefixes/substrings of each other and of body tokens, macros using earlier "
                      "and later macros incl. cycles, names passed as arguments, uses inside procedures) x use sites with register / number / bracketed-memory / label "
-                     "arguments: output of the real assembler vs the model's expansion; non-trivial = accepted program"),
+                     "arguments: output of the real assembler vs the model's expansion; non-trivial = accepted program"
+                     " L3 macroref: the same program with every macro use written out by hand by the generator's reference expander (simultaneous whole-word substitution, nested and by-name uses, every register in both cases in every operand role): identical code lists or both refused."),
     "C14": dict(modules=["Emu8086.Props.C14"], runs=[("l3", "errors"), ("l4", "diag")], gen=["Arch", "ILiterals", "PPGrammar"],
                 rule="a valid program x every applicable single semantic mutation (undefined / data-label jump target, duplicate label / procedure, data operand or "
                      "OFFSET on a code label or unknown name, call of a non-procedure, constants out of range by one, operand size mismatch, two memory operands, "
                      "unsupported instructions / interrupts, missing or data-typed start) + boundary values of every constant range; the real binary must print a "
-                     "diagnostic and execute nothing (empty trace from the hook); non-trivial = mutant refused"),
+                     "diagnostic and execute nothing (empty trace from the hook); non-trivial = mutant refused"
+                     " ~1000 programs that are invalid / valid BY CONSTRUCTION (every instruction family x every byte/word destination form x the constants just outside/inside the documented range, array fill values and counts, OFFSET as a byte constant at 254..257, sizes of macro arguments) carry the verdict the property demands (expect=!refused / !accepted), independent of model and grammar."),
     "C15": dict(modules=["Emu8086.Props.C15"], runs=[("l4", "fuzz"), ("l2", "malformed")], gen=["Arch", "ILiterals", "PPGrammar"],
                 rule="seeded byte/token-level mutations of valid programs (delete / insert / replace / duplicate spans; alphabet incl. NUL, DEL, non-ASCII, NBSP), "
                      "size families (10^5 digits, 5000 lines, 70 000-character strings, macro chains), empty input, no final newline — run by the real binary under a "
-                     "watchdog (exit 101 / signal / timeout is a violation) and compared with the model; L2 malformed lines against the interpreter in-process"),
+                     "watchdog (exit 101 / signal / timeout is a violation) and compared with the model; L2 malformed lines against the interpreter in-process"
+                     " fuzz also contains files that are not UTF-8 (raw bytes), data blocks crossing the end of memory, macro arity mismatches, the smallest programs under -i."),
     "C16": dict(modules=["Emu8086.Props.C16", "Emu8086.Props.C16Map"], runs=[("l4", "diag", {"VERIF_STRICT_OUT": "1"}), ("l4", "prompt", {"VERIF_STRICT_OUT": "1"}), ("l4", "run", {"VERIF_STRICT_OUT": "1"})], gen=["Arch", "ILiterals", "PPGrammar"],
                 rule="single-token corruptions at every token position of a valid program, error mutants with shifted lines / no trailing newline / comment lines, "
                      "stepping runs and prints/interrupts at first/middle/last lines and inside macros and procedures: line number, column and line text in the real "
-                     "binary's messages must equal the model's (computed from the source map and byte offsets)"),
+                     "binary's messages must equal the model's (computed from the source map and byte offsets)"
+                     " diag includes errors arising inside macro expansions at known lines and macro-generated undefined jumps; stdout compared strictly."),
     "C17": dict(modules=["Emu8086.Props.C17"], runs=[("l4", "prints", {"VERIF_STRICT_OUT": "1"}), ("l4", "prompt", {"VERIF_STRICT_OUT": "1"})], gen=["Arch", "ILiterals", "PPGrammar"],
                 rule="random machine states established by generated programs x print reg / flags / mem with ranges of length 0/1/15/16/17/31/32/100, ending at "
                      "FFFFFh, backwards, beyond 2^20, DS-relative with DS up to FFFFh, constants in all radices; stdout compared byte-for-byte with the model; the same "
-                     "commands typed at the prompt; state after printing compared (trace hook)"),
+                     "commands typed at the prompt; state after printing compared (trace hook)"
+                     " every case combination of the print statements in the program and at the prompt, and DS-relative counts beyond 16 bits, with generator-stated expectations (expect=) on the text that must appear; stdout compared strictly."),
     "C18": dict(modules=["Emu8086.Props.C18"], runs=[("l4", "ints", {"VERIF_STRICT_OUT": "1"})], gen=["Arch", "ILiterals", "PPGrammar"],
                 rule="INT 21h / 10h x AH in supported values and random others x buffers at random segments incl. FFFFh:FFF0h.. (wrap) x capacity 0/1/2/3/5/255 x "
                      "stdin families (empty, newline only, shorter, equal, longer than capacity, unterminated, CRLF, two lines): stdout, registers and memory after the "
-                     "service vs the model"),
+                     "service vs the model"
+                     " ALL 256 AH values for both interrupts in every run; input lines starting with multi-byte characters; stdout compared strictly."),
     "C19": dict(modules=["Emu8086.Props.C19"], runs=[("l4", "diag", {"VERIF_CLI_REPEAT": "3"}), ("l4", "run", {"VERIF_CLI_REPEAT": "2"}), ("l3", "reuse"), ("l2", "arith+logic+shift+muldiv+mov+xfer+stack+jump+string+ctl+malformed")],
                 gen=["Arch", "ILiterals", "PPGrammar", "Hygiene"],
                 rule="every L4 case is run 2-3 times in separate processes: outputs, traces and final states must be byte-identical (and equal to the deterministic "
                      "model), in particular programs with several simultaneous errors; L2: ONE Interpreter object processes all requests (valid and malformed lines "
-                     "interleaved, thousands per run) and must agree with the stateless model on each"),
+                     "interleaved, thousands per run) and must agree with the stateless model on each"
+                     " L3 reuse: a source on used (cleared) parser/context objects vs fresh objects (request asmre); one undefined label used by several jumps and one macro use expanding to several undefined jumps (equal recorded positions)."),
     "C20": dict(modules=["Emu8086.Props.C20"], runs=[("l4", "prompt", {"VERIF_STRICT_OUT": "1"})], gen=["Arch", "ILiterals", "PPGrammar"],
                 rule="terminating programs x stepping enabled by -i, by a POPF-set trap flag, or by INT 3 at random places x random prompt scripts (next in all "
                      "spellings, print commands, garbage, empty lines, quit, premature end of input incl. an unterminated last line): stdout, exit status, trace and "
-                     "final state of the real binary vs the model"),
+                     "final state of the real binary vs the model"
+                     " prompt group includes the smallest programs (nothing / one instruction after start:, explicit final hlt, push cs); stdout compared strictly."),
 }
 
 def log(*a):
